@@ -148,6 +148,14 @@ func TestVerifC13(t *testing.T) {
 		if model.R == nil {
 			return
 		}
+		// two thirds of the cases hand the per-user constants over as sub-slices of ONE caller record
+		// (ZA || xA || yA || d, adjacent, spare capacity reaching into the next field): what the wrappers do
+		// with ZA and M on the way to the digest must not touch the caller's memory
+		var rec *hk.Record
+		if l%3 != 0 {
+			rec = hk.NewRecord([]int{0, 4}[l%2], 64, za, px, py, priv)
+			za, px, py, priv = rec.View(0, za), rec.View(1, px), rec.View(2, py), rec.View(3, priv)
+		}
 		var r1, s1, r2, s2, r3, s3 []byte
 		var e1, e2, e3 error
 		p, pm, _, _ := hk.Try(func() {
@@ -195,7 +203,13 @@ func TestVerifC13(t *testing.T) {
 				r.Violation("verify-wrapper-disagrees-with-model", det)
 			}
 		}
-		r.Eval("wrap:" + cls + fmt.Sprintf(",idlen=%d", len(id)))
+		if rec != nil {
+			if ok, off, field := rec.Intact(); !ok {
+				det["first_modified_record_offset"], det["lies_in_field(0=ZA,1=x,2=y,3=d)"] = off, field
+				r.Violation("wrapper-modifies-caller-record(ZA||x||y||d)", det)
+			}
+		}
+		r.Eval("wrap:" + cls + fmt.Sprintf(",idlen=%d,record=%v", len(id), rec != nil))
 	})
 
 	// ---- call histories on REUSED buffers: the same id / key / message buffers are overwritten in place
